@@ -227,9 +227,28 @@ static int is_meta(void)
 	    || kind == KOutLocal || kind == KOutRemote || kind == KIterFile;
 }
 
+/* descriptors opened by objects that outlive their behaviour (streams, file iterators) are
+ * closed at reset: everything that was not open before the first behaviour of this process */
+#include <fcntl.h>
+#define FDSCAN 256
+static char fd_base[FDSCAN];
+static int fd_base_set;
+static void close_leftover_fds(void)
+{
+	int fd;
+	if (!fd_base_set) {
+		for (fd = 0; fd < FDSCAN; fd++) fd_base[fd] = fcntl(fd, F_GETFD) >= 0;
+		fd_base_set = 1;
+		return;
+	}
+	for (fd = 3; fd < FDSCAN; fd++) {
+		if (!fd_base[fd]) close(fd);
+	}
+}
 static void drv_reset(void)
 {
 	while (npeers) close(peers[--npeers]);
+	close_leftover_fds();
 	memset(slot, 0, sizeof(slot));
 	memset(objs, 0, sizeof(objs));
 	memset(&inner, 0, sizeof(inner));
